@@ -46,6 +46,8 @@ class Gen:
         if self.cfg["nested"]:
             o = r.choice(self.recs)
             rec.features.add("nested")
+            # irregular features of a nested record are inherited (its layout is part of ours)
+            rec.features |= {f for f in o.features if f not in ("nested", "array")}
             return "%s %s" % (o.kind, o.name)
         return "int"
 
@@ -151,7 +153,7 @@ def rust_probe(bindings, recs, tmp, tag, edition="2021"):
     src = os.path.join(tmp, "rp_%s.rs" % tag)
     defined = set(re.findall(r"pub (?:struct|union) (\w+)", bindings))
     with open(src, "w") as f:
-        f.write("#![allow(warnings)]\n" + bindings + "\nfn main() {\n")
+        f.write("#![allow(warnings)]\n" + bindings + "\n" + ("use root::*;\n" if re.search(r"pub mod root\s*\{", bindings) else "") + "fn main() {\n")
         for rec in recs:
             if rec.name not in defined:
                 continue
